@@ -572,3 +572,89 @@ func VH12g_write_fault() {
 	verif.Reach("write-fault-checked")
 	sock.Close()
 }
+
+// VH18d_toggle: fail-no-peers is switched on and off while peers come and go:
+// every history of E events from {option on; option off; a peer connects; the
+// connected peer leaves; a Send}. At each Send the option's current value
+// decides: with no peer and the option on it fails at once with the no-peers
+// error; with a peer connected it is accepted whatever the option was earlier;
+// with no peer and the option off it waits (and is then completed by the next
+// peer or ended by switching the option on). No option call or departure panics.
+func VH18d_toggle() {
+	E := verif.Param("E", 5)
+	protos := []string{"push", "xpush", "req", "xreq", "pair", "xpair", "pair1", "xpair1"}
+	proto := protos[verif.Choice("proto", len(protos))]
+	lab := "C18/" + proto + "/toggle"
+	sock := vp.New(proto)
+	if sock.SetOption(mangos.OptionFailNoPeers, false) != nil {
+		verif.Assume(false) // the pattern does not have the option
+	}
+	if proto == "req" || proto == "xreq" {
+		sock.SetOption(mangos.OptionRetryTime, time.Duration(0))
+	}
+	side := vt.Listen(sock, "a")
+	var peer *vt.Pipe
+	on := false
+	var waiting *verif.G
+	var werr error
+	n := 0
+	for e := 0; e < E; e++ {
+		ev := verif.Choice("ev", 5)
+		switch ev {
+		case 0:
+			verif.Assume(!on)
+			verif.Assert(sock.SetOption(mangos.OptionFailNoPeers, true) == nil, lab+"/set-on")
+			on = true
+		case 1:
+			verif.Assume(on)
+			verif.Assert(sock.SetOption(mangos.OptionFailNoPeers, false) == nil, lab+"/set-off")
+			on = false
+		case 2:
+			verif.Assume(peer == nil && n < 3)
+			n++
+			peer = side.Peer("p" + string(rune('0'+n)))
+		case 3:
+			verif.Assume(peer != nil)
+			peer.Drop()
+			peer = nil
+		case 4:
+			verif.Assume(waiting == nil)
+			var err error
+			g := verif.Go("send", func() { err = sock.SendMsg(newMsg(proto)) })
+			verif.Quiesce()
+			switch {
+			case peer != nil:
+				verif.Assert(g.Done(), lab+"/send-blocks-although-a-peer-takes-messages")
+				if g.Done() {
+					verif.Assert(err != mangos.ErrNoPeers, lab+"/no-peers-error-although-a-peer-is-connected")
+					verif.Assert(err == nil, lab+"/send-error-with-a-peer-connected")
+				}
+			case on:
+				verif.Assert(g.Done() && err == mangos.ErrNoPeers, lab+"/no-immediate-no-peers-error-with-the-option-on-and-nobody-connected")
+			default:
+				// nobody connected, option off: the message is queued (patterns with a send queue) or the call waits
+				if g.Done() {
+					verif.Assert(err == nil, lab+"/send-fails-with-the-option-off")
+				} else {
+					waiting = g
+				}
+			}
+			if g.Done() {
+				werr = err
+			}
+		}
+		verif.Quiesce()
+		if waiting != nil && waiting.Done() {
+			// it was ended by the option being switched on (no-peers error) or completed by a peer arriving
+			verif.Assert(on || peer != nil, lab+"/waiting-send-ended-without-cause")
+			waiting = nil
+		}
+		if waiting != nil {
+			// (whether switching the option on ends a Send that is already waiting is not said by the property)
+			verif.Assert(peer == nil, lab+"/waiting-send-not-completed-by-the-peer-that-connected")
+		}
+	}
+	_ = werr
+	verif.Reach("toggled")
+	sock.Close()
+}
